@@ -227,6 +227,23 @@ def same_xy_other_z(E, X, Y, rng=None):
     return poly_roots_fp([pow(X, 3, p), (-Y * Y) % p, 0, b % p], p, rng)
 
 
+def fold_colliding(x, p, rng, n=6):
+    """Values y != x (mod p) that agree with x under the cheap folds a hand-written cache key might use: XOR-fold and ADD-fold of
+    64-bit (and 32-bit) limbs, the low 64 bits, the high 64 bits, x mod (2^61 - 1)."""
+    out = []
+    nb = max(p.bit_length(), 192)
+    for _ in range(n):
+        d = rng.getrandbits(62) | 1
+        i_, j_ = rng.sample(range(0, nb // 64), 2) if nb // 64 >= 2 else (0, 1)
+        out.append(x ^ (d << (64 * i_)) ^ (d << (64 * j_)))                 # same XOR-fold-64
+        out.append(x + (d << (64 * i_)) - (d << (64 * j_)))                 # same ADD-fold-64 (mod 2^64) when no limb wraps
+        out.append(x ^ ((d & 0xFFFFFFFF) << 32 * (2 * i_)) ^ ((d & 0xFFFFFFFF) << (32 * (2 * j_ + 1))))   # same XOR-fold-32
+        out.append(x + (d << 64))                                            # same low 64 bits
+        out.append(x ^ (d >> 2))                                             # same high bits
+        out.append(x + d * M61)                                              # same hash()
+    return [y for y in out if 0 <= y < p and y != x]
+
+
 def endo_scalars(n):
     """Scalars algebraically tied to the j = 0 endomorphism (x, y) -> (beta x, y) of a group of prime order n = 1 mod 3:
     its eigenvalues lam (the two primitive cube roots of unity mod n) and their neighbours / small combinations.  k*P for
